@@ -3,6 +3,7 @@ package mt
 import (
 	"errors"
 	"fmt"
+	"math/big"
 	"sort"
 	"strconv"
 	"strings"
@@ -177,7 +178,7 @@ func (in *Interp) renderTemplate(w *strings.Builder, t *Tmpl, f *frame) error {
 	for i := len(chain) - 1; i >= 0; i-- {
 		m := map[string][]Stmt{}
 		var order []string
-		collectBlocks(chain[i].Body, i == len(chain)-1, m, &order)
+		collectBlocks(chain[i].Body, true, m, &order) // a block defines its name for its template wherever it is written
 		for _, n := range order {
 			defs[n] = append(defs[n], m[n])
 		}
@@ -478,7 +479,41 @@ func checkRange(n int64) (Val, error) {
 	return n, nil
 }
 
+// Frac is the value of an inexact integer division. The statements fix what it means only under a comparison ("numeric
+// comparison"): every other use of it is outside the reference semantics.
+type Frac struct{ N, D int64 } // D > 0, N % D != 0
+
+func asRat(v Val) (*big.Rat, bool) {
+	switch x := v.(type) {
+	case int64:
+		return new(big.Rat).SetInt64(x), true
+	case Frac:
+		return big.NewRat(x.N, x.D), true
+	}
+	return nil, false
+}
+
+// cmpNum compares two numbers (integers or fractions) exactly.
+func cmpNum(a, b Val) (int, bool) {
+	x, ok1 := asRat(a)
+	y, ok2 := asRat(b)
+	if !ok1 || !ok2 {
+		return 0, false
+	}
+	return x.Cmp(y), true
+}
+
 func valEq(a, b Val) (bool, error) {
+	if _, isFrac := a.(Frac); isFrac {
+		if c, ok := cmpNum(a, b); ok {
+			return c == 0, nil
+		}
+	}
+	if _, isFrac := b.(Frac); isFrac {
+		if c, ok := cmpNum(a, b); ok {
+			return c == 0, nil
+		}
+	}
 	switch x := a.(type) {
 	case int64:
 		if y, ok := b.(int64); ok {
@@ -792,8 +827,15 @@ func (in *Interp) evalBin(x Bin, f *frame) (Val, error) {
 			}
 			return int64(0), nil
 		case "/":
-			if b == 0 || a%b != 0 {
-				return nil, fmt.Errorf("%w: inexact division", ErrUndefinedBehaviour)
+			if b == 0 {
+				return nil, fmt.Errorf("%w: division by zero", ErrUndefinedBehaviour)
+			}
+			if a%b != 0 {
+				// a fraction: defined only as an operand of a comparison (see Frac)
+				if b < 0 {
+					a, b = -a, -b
+				}
+				return Frac{N: a, D: b}, nil
 			}
 			return a / b, nil
 		case "%":
@@ -838,20 +880,19 @@ func (in *Interp) evalBin(x Bin, f *frame) (Val, error) {
 		eq, err := valEq(l, r)
 		return !eq, err
 	case "<", ">", "<=", ">=":
-		a, ok1 := l.(int64)
-		b, ok2 := r.(int64)
-		if !ok1 || !ok2 {
+		c, ok := cmpNum(l, r)
+		if !ok {
 			return nil, fmt.Errorf("%w: ordering on %T,%T", ErrUndefinedBehaviour, l, r)
 		}
 		switch x.Op {
 		case "<":
-			return a < b, nil
+			return c < 0, nil
 		case ">":
-			return a > b, nil
+			return c > 0, nil
 		case "<=":
-			return a <= b, nil
+			return c <= 0, nil
 		default:
-			return a >= b, nil
+			return c >= 0, nil
 		}
 	case "in", "not in":
 		var res bool
